@@ -51,7 +51,16 @@ pub fn make_history(r: &mut Sm, idx: usize) -> History {
             _ => vec![Op::Setup(0), Op::Solve(n(r)), Op::Solve(n(r)), Op::Solve(n(r)), Op::Setup(1), Op::Solve(n(r))],
         }
     };
-    History { problems: vec![p1, p2], params, prm_samples: 5 + r.below(80) as u64, ops, uniform_fail_at: None, starts_override: None }
+    // scripted samples over an alphabet with duplicates: exact ties (equal costs, zero-length
+    // edges) make any order-dependence of the implementation visible
+    let script = if r.bool(0.3) {
+        let al = crate::world::alphabet(r, &p1, 3);
+        let len = 8 + r.below(40);
+        Some((0..len).map(|_| al[r.below(al.len())].clone()).collect::<Vec<_>>())
+    } else {
+        None
+    };
+    History { problems: vec![p1, p2], params, prm_samples: 5 + r.below(80) as u64, ops, uniform_fail_at: None, starts_override: None, script }
 }
 
 fn first_difference(a: &[CallRec], b: &[CallRec]) -> Option<(usize, String)> {
